@@ -34,18 +34,18 @@
                         from the Rust source by the translator;
      C01_evaluator_*    see the end of this file for the evaluator level. *)
 From Clvm Require Import Model.Dialect Model.RefClvm Proofs.RefClvmBasics Proofs.RefClvmUnknown
-  Proofs.RefClvmDispatch Proofs.RefClvmCosts Proofs.UnknownProofs.
+  Proofs.RefClvmDispatch Proofs.RefClvmCosts Proofs.UnknownProofs Proofs.RefClvmEval.
 Open Scope N_scope.
 
-Theorem C01_operators : forall (P : prims) ext opc args M,
+Theorem C01_operators : forall (P : prims) dom ext opc args M,
   ext <> OsPreHardFork ->
   M < two64 ->
-  ~ wraps64 opc (arg_lens args) false M ->
+  (classic_code opc = false -> ~ wraps64 opc (arg_lens args) false M) ->
   (forall b, In (Atom b) (items args) -> blen b < 2147483648) ->
-  ref_op (p_sha256 P) current_adapters (ext_kec ext) opc (items args) (ending args) <> Err Unsupported ->
-  covers M (ref_op (p_sha256 P) current_adapters (ext_kec ext) opc (items args) (ending args)) ->
+  ref_op (p_sha256 P) current_adapters dom (ext_kec ext) opc (items args) (ending args) <> Err Unsupported ->
+  covers M (ref_op (p_sha256 P) current_adapters dom (ext_kec ext) opc (items args) (ending args)) ->
   agrees (chia_op P true no_flags (Atom opc) args M ext)
-         (ref_op (p_sha256 P) current_adapters (ext_kec ext) opc (items args) (ending args)).
+         (ref_op (p_sha256 P) current_adapters dom (ext_kec ext) opc (items args) (ending args)).
 Proof. exact chia_op_agrees. Qed.
 
 Theorem C01_path : forall path env, traverse_path path env = ref_path path env.
@@ -60,14 +60,39 @@ Proof. exact ref_unknown_spec. Qed.
 Theorem C01_costs_literal : costs_match.
 Proof. exact costs_literal. Qed.
 
+(* evaluator level, one direction: whenever the reference succeeds within the budget, run_program
+   (the stack machine of Model/Machine.v under ChiaDialect with no flags) succeeds with the same
+   cost and the same tree. [dom] is the domain of the comparison (dom_sound: no atom of 2^31
+   bytes or more among operator arguments, no unknown operator in the wrap class of F6);
+   through Proofs/BigStepEquiv.v (stack machine = big-step form of run_program). *)
+Theorem C01_refines_complete : forall (P : prims) dom fuel p e max_cost r,
+  dom_sound dom -> max_cost < two64 ->
+  ref_run (p_sha256 P) current_adapters dom fuel p e max_cost = Ok r ->
+  exists fuel', run_chia P fuel' 0 p e max_cost = Ok r.
+Proof. exact ref_run_complete. Qed.
+
+Theorem C01_dom_classic_sound : dom_sound dom_classic.
+Proof. exact dom_classic_sound. Qed.
+
+(* non-vacuity of C01_refines_complete: (a (q . (c (+ 2 3) (mul 2 3))) (c (q . 7) 1)) in the
+   environment 6, inside the sound domain dom_classic, under the exact budget *)
+Example C01_refines_witness : forall P : prims,
+  let prog := Cons (Atom [2]) (Cons (Cons (Atom [1])
+                 (Cons (Atom [4]) (Cons (Cons (Atom [16]) (Cons (Atom [2]) (Cons (Atom [3]) nil_s)))
+                                  (Cons (Cons (Atom [18]) (Cons (Atom [2]) (Cons (Atom [3]) nil_s))) nil_s))))
+               (Cons (Cons (Atom [4]) (Cons (Cons (Atom [1]) (Atom [7])) (Cons (Atom [1]) nil_s))) nil_s)) in
+  ref_run (p_sha256 P) current_adapters dom_classic 5 prog (Atom [6]) 2225 = Ok (2225, Cons (Atom [13]) (Atom [42])) /\
+  ref_run (p_sha256 P) current_adapters dom_classic 5 prog (Atom [6]) 2224 = Err CostExceeded.
+Proof. intros P. vm_compute. split; reflexivity. Qed.
+
 (* non-vacuity: (+ 3 -4 0x0005) through the dispatch, and an unknown operator with a
    multiply-like cost on a 3-byte and a 2-byte atom *)
 Example C01_witness :
   let args := Cons (Atom [3]) (Cons (Atom [252]) (Cons (Atom [0; 5]) nil_s)) in
-  ref_op (fun b => b) current_adapters false [16] (items args) (ending args) = Ok (1081, Atom [4]) /\
-  ref_op (fun b => b) current_adapters false [1; 128] (items (Cons (Atom [1; 2; 3]) (Cons (Atom [4; 5]) nil_s))) []
+  ref_op (fun b => b) current_adapters (fun _ _ => true) false [16] (items args) (ending args) = Ok (1081, Atom [4]) /\
+  ref_op (fun b => b) current_adapters (fun _ _ => true) false [1; 128] (items (Cons (Atom [1; 2; 3]) (Cons (Atom [4; 5]) nil_s))) []
     = Ok (2014, nil_s) /\
-  ref_op (fun b => b) current_adapters false [48] [] [] = Err Unsupported /\
+  ref_op (fun b => b) current_adapters (fun _ _ => true) false [48] [] [] = Err Unsupported /\
   ref_path [0; 5] (Cons (Atom [7]) (Cons (Atom [8]) (Atom [9]))) = Ok (56, Atom [8]).
 Proof. vm_compute. repeat split. Qed.
 
@@ -76,3 +101,6 @@ Print Assumptions C01_path.
 Print Assumptions C01_unknown_rule.
 Print Assumptions C01_costs_literal.
 Print Assumptions C01_witness.
+Print Assumptions C01_refines_complete.
+Print Assumptions C01_dom_classic_sound.
+Print Assumptions C01_refines_witness.
